@@ -43,6 +43,8 @@ def run(tier):
         cc.dump_phase(chk, PID, "A1_struct_len3", config("A1_struct_len3"), ["InputModesInv"], PROPS, MINE, 0.02, 3000,
                       {"scenario": "single", "numeric": False})
     cc.script_phase(chk, PID, "findings", cc.load_corpus(PID), MINE)
+    if th:
+        cc.repo_tests_phase(chk, PID, MINE, ["tests/sdk/circuit_test.py", "tests/interferometers"])
     cc.trace_phase(chk, PID, "components_ring", 2000 if th else 320, "components", MINE, numeric=True)
     cc.trace_phase(chk, PID, "components_float", 3000 if th else 400, "components", MINE, numeric=False)
     chk.assumptions = ["TLC 1.8 + CommunityModules", "TLA+ value parser", "evaluator ev.py (calibrated against TLC in this run)",
